@@ -364,7 +364,7 @@ def rule_r5(p, res):
 
 
 # rules of sibling properties over code paths this property's statement also quantifies over (DESIGN.md section 3, shared rules)
-ALSO = ['C02.R2']
+ALSO = ['C02.R2', 'C05.R5']
 
 RULES = [rule_r1, rule_r2, rule_r3, rule_r4, rule_r5]
 
